@@ -1,11 +1,13 @@
 SPECIFICATION Spec
 CONSTANTS MaxVersion = 4
  MaxFaults = 3
+  ClaimFirst = TRUE
  SilentRace = TRUE
 INVARIANT TypeOK
 INVARIANT AtomicReplace
 INVARIANT SaveCommitsCurrentSnapshot
 INVARIANT LoadWhole
 INVARIANT FailedAttemptHarmless
+INVARIANT NoLostUpdate
 PROPERTY ScheduleAlive
 CHECK_DEADLOCK FALSE
